@@ -9,6 +9,7 @@ import (
 
 	"github.com/inbucket/inbucket/v3/pkg/config"
 	"github.com/inbucket/inbucket/v3/pkg/extension"
+	"github.com/inbucket/inbucket/v3/pkg/extension/event"
 	"github.com/inbucket/inbucket/v3/pkg/server"
 	"github.com/inbucket/inbucket/v3/pkg/server/web"
 	"github.com/inbucket/inbucket/v3/pkg/storage"
@@ -35,10 +36,13 @@ type c19Case struct {
 	Retention bool // retention period short enough that a scan may be running at cancel
 	CancelAt  time.Duration
 	Net       simnet.Profile
+	// BusyHub: when shutdown is requested the hub is inside a slow listener, its
+	// queue is full and further callers are waiting to hand it events.
+	BusyHub bool
 }
 
 func (k *c19Case) Describe() []string {
-	l := []string{fmt.Sprintf("backend=%s retention=%v cancelAt=%v lateDials=%d %s", k.Backend, k.Retention, k.CancelAt, k.LateDials, profileString(k.Net))}
+	l := []string{fmt.Sprintf("backend=%s retention=%v cancelAt=%v lateDials=%d busyHub=%v %s", k.Backend, k.Retention, k.CancelAt, k.LateDials, k.BusyHub, profileString(k.Net))}
 	for i, s := range k.Sessions {
 		l = append(l, fmt.Sprintf("session%d %s parked at %s, continues %dms after cancel", i, s.Proto, s.Park, s.Delay))
 	}
@@ -65,7 +69,34 @@ func genC19(w *simrt.Choices, tier string, avoid map[string]bool) Case {
 	k.LateDials = w.Choose(3)
 	k.Retention = w.Choose(2) == 0
 	k.CancelAt = []time.Duration{0, 10 * time.Millisecond, 59 * time.Second, 61 * time.Second, 62 * time.Second}[w.Choose(5)]
+	k.BusyHub = w.Choose(4) == 1
 	return k
+}
+
+// c19SlowListener is a hub listener that takes its time: Receive parks the
+// hub's goroutine until the harness releases it.
+type c19SlowListener struct {
+	sim      *simrt.Sim
+	released bool
+	inside   *simrt.Task
+}
+
+func (l *c19SlowListener) Receive(msg event.MessageMetadata) error {
+	if !l.released {
+		l.inside = simrt.Current()
+		l.inside.Block("slow hub listener")
+		l.inside = nil
+	}
+	return nil
+}
+
+func (l *c19SlowListener) Delete(mailbox, id string) error { return nil }
+
+func (l *c19SlowListener) release() {
+	l.released = true
+	if l.inside != nil {
+		l.sim.MakeReady(l.inside)
+	}
 }
 
 type c19Client struct {
@@ -175,6 +206,23 @@ func runC19(c *Ctx, cs Case) {
 	if k.CancelAt > 0 {
 		simrt.Sleep(k.CancelAt)
 	}
+	var slow *c19SlowListener
+	var feeders []*simrt.Task
+	if k.BusyHub {
+		slow = &c19SlowListener{sim: c.Sim}
+		svc.MsgHub.AddListener(slow)
+		c.Main.Quiesce()
+		for f := 0; f < 3; f++ {
+			f := f
+			feeders = append(feeders, simrt.Go(fmt.Sprintf("hub-feeder%d", f), func() {
+				for i := 0; i < 150; i++ {
+					svc.MsgHub.Dispatch(event.MessageMetadata{Mailbox: "feeder", ID: fmt.Sprintf("f%d-%d", f, i), Subject: "burst", Date: time.Now()})
+				}
+			}))
+		}
+		c.Main.Quiesce()
+		c.Stat("probe.shutdown_with_hub_busy_and_queue_full", 1)
+	}
 	// sessions that connect at the last moment: woken before cancel, the
 	// seed decides how far they and the accept loop get before it
 	for _, cl := range clients {
@@ -219,6 +267,17 @@ func runC19(c *Ctx, cs Case) {
 		svc.RetentionScanner.Join()
 		joined = true
 	})
+	if slow != nil {
+		// the slow listener returns; whoever was waiting to hand the hub an event
+		// must not be left waiting for a hub that has stopped
+		slow.release()
+		for _, f := range feeders {
+			if !c.Main.JoinTimeout(f, time.Second) {
+				c.Failf("hub-caller-left-waiting-after-shutdown", "%s was handing events to the hub when shutdown was requested and is still waiting one simulated second later", f.Name)
+				return
+			}
+		}
+	}
 	// retention and hub stop within a simulated second
 	joinT := c.Go("join-probe", func() { svc.RetentionScanner.Join() })
 	if !c.Main.JoinTimeout(joinT, time.Second+time.Millisecond) {
